@@ -24,15 +24,27 @@ def run(ctx):
                 'signatures, wrong keys and wrong digests. Observable: accept / reject / exception and the remaining stack. '
                 'non-trivial = distinct program')
 
+    REEVAL = {'n': 0}
+
     def lib_eval(cmds, env, msg):
         try:
             s = Script(list(cmds))
             r = s.evaluate(message=msg, env_data=dict(env))
         except Exception:
             return 'raises'
-        if not r:
-            return 'reject'
-        return 'accept ' + (','.join(hexp(x) for x in s.stack) if len(s.stack) else '-')
+        res = 'reject' if not r else 'accept ' + (','.join(hexp(x) for x in s.stack) if len(s.stack) else '-')
+        # the same Script object evaluated again must give the same verdict (no state left over from the first run)
+        if REEVAL['n'] % 7 == 0:
+            try:
+                r2 = s.evaluate(message=msg, env_data=dict(env))
+                res2 = 'reject' if not r2 else 'accept ' + (','.join(hexp(x) for x in s.stack) if len(s.stack) else '-')
+            except Exception:
+                res2 = 'raises'
+            if res2 != res:
+                ctx.violation('evaluating the same Script object twice gives two different results',
+                              {'op': 'reevaluate', 'commands': [item_str(c) for c in cmds], 'first': res, 'second': res2})
+        REEVAL['n'] += 1
+        return res
 
     def op_line(cmds, env, msg):
         return 'eval %s %d %d %d %s %s' % (','.join(item_str(c) for c in cmds) or '-', env['sequence'], env['locktime'], env['version'],
